@@ -159,6 +159,25 @@ def run(ctx):
                     ctx.ok("C19-R1", "%s builds Weights only as the equal-share literal vec![1/n; n]" % path, b.loc())
                     continue
             extra.append(path)
+        if adt == IW + "Weights":
+            # ... and the unvalidated constructor `average` builds exactly that literal: the default
+            # weights of a multi-voice engine sum to 1 (sweep survivor: `1.0 * n` for `1.0 / n`)
+            ab = p.body(IW + "Weights::average")
+            if ab is not None:
+                aeb = ExprBuilder(ab)
+                okavg = False
+                lits_ = [(bb_, i_, st_) for bb_, i_, st_ in ab.iter_stmts() if st_.get("k") == "assign" and st_["rv"]["k"] == "aggregate" and st_["rv"]["kind"].get("def") == adt]
+                for bb_, i_, st_ in lits_:
+                    e_ = aeb.at(bb_, i_).rvalue(st_["rv"])
+                    w_ = e_[2][0] if e_[0] == "agg" and e_[2] else None
+                    if w_ is not None and w_[0] == "call" and w_[1].endswith("from_elem") and len(w_[2]) == 2:
+                        v_, n_ = w_[2]
+                        if v_[0] == "bin" and v_[1] == "Div" and v_[2][0] == "c" and v_[2][1] == 1.0 and v_[3][0] == "cast" and canon(v_[3][2]) == canon(n_):
+                            okavg = True
+                if okavg and len(lits_) == 1:
+                    ctx.ok("C19-R1", "Weights::average(n) = vec![1/n; n]: the default weights sum to 1", ab.loc())
+                else:
+                    ctx.fail("C19-R1", ab.path, "equal share", "Weights::average does not build vec![1.0 / n; n]: the default weights of a multi-voice engine are not the equal shares summing to 1", ab.loc())
         if extra:
             for e in extra:
                 ctx.fail("C19-R1", e, "constructs " + adt, "%s is built outside its validating constructor" % adt, p.bodies[e].loc())
